@@ -15,13 +15,17 @@ package tlb
 //   - .../core: 300 random values each of MsgAddress, Grams, CurrencyCollection, CommonMsgInfo, StateInit, Message
 //     (body and init inline / in a reference) against a hand-written encoder; dictionaries inside are compared through
 //     the reference dictionary parser (any valid label form accepted, mapping and value bits must be exact).
-//   - TestVerifStandin_C04_RealData: every transaction, message, InMsg / OutMsg record and fully present account of
-//     the five blocks in testdata: decode -> encode -> same cell hash as the source cell.
+//   - TestVerifStandin_C04_RealData: every transaction, message and fully present account, and InMsg / OutMsg records
+//     (quick: ~100 evenly spaced per block, thorough: all) of the five blocks in testdata: decode -> encode -> same
+//     cell hash as the source cell. Transactions / InMsg / OutMsg are encoded twice: through the public API, and
+//     through a copy of the value whose Transaction structs lack the unexported cache fields (sub-tests *_fields).
 //
 // Allow-list for real data (a different hash is tolerated ONLY in this case, everything else fails): the source and
 // the re-encoded tree are identical except that dictionary edges carry the same label in a different valid form
-// (hml_short / hml_long / hml_same) - the schema does not make the label form unique. Such cases are counted and
-// printed. Either-side and Maybe choices are kept by the decoded value, so they never explain a difference.
+// (hml_short / hml_long / hml_same) AND the source is the side that does not use the shortest form (the form the
+// reference implementation always emits). When the source is canonical and the re-encoding is not, the case is
+// reported under rc_dictionary_labels_not_canonical. Either-side and Maybe choices are kept by the decoded value, so
+// they never explain a difference. All counters are printed (C04-REALDATA lines).
 
 import (
 	"fmt"
@@ -30,6 +34,7 @@ import (
 	"os"
 	"path/filepath"
 	"reflect"
+	"runtime/debug"
 	"sort"
 	"strings"
 	"testing"
@@ -111,6 +116,13 @@ func c04MarshalCompare(v any, exp c04Enc) string {
 	var err error
 	if p := vhSafe(func() { err = Marshal(c, v) }); p != "" {
 		return "Marshal panic: " + p
+	}
+	if len(exp.bits) > 1023 || len(exp.refs) > 4 {
+		// the schema encoding does not fit one cell: the only acceptable outcome is an error
+		if err == nil {
+			return fmt.Sprintf("value needs %d bits / %d refs but Marshal returned no error (cell %s)", len(exp.bits), len(exp.refs), vhTree(c))
+		}
+		return ""
 	}
 	if err != nil {
 		return "Marshal error: " + err.Error()
@@ -732,9 +744,6 @@ func TestVerifStandin_C04_BitExact(t *testing.T) {
 			}
 			m, me := c04RandMessage(rng)
 			stat.add("message|" + vhDump(m))
-			if len(me.bits) > 1023 || len(me.refs) > 4 {
-				continue // does not fit a cell: Marshal must fail, nothing to compare
-			}
 			if d := c04MarshalCompare(m, me); d != "" {
 				fails.add("rc_message_bits", "%s: %s", vhDump(m), d)
 			}
@@ -747,39 +756,71 @@ func TestVerifStandin_C04_BitExact(t *testing.T) {
 // ---- real chain data ----
 
 // c04ExplainedByLabels: src and re are equal trees except for the label form of dictionary edges (same label, same
-// remainder, different hml_* kind), with remaining key length at most maxKey.
-func c04ExplainedByLabels(src, re *boc.Cell, maxKey int) bool {
+// remainder, different hml_* kind), with remaining key length at most maxKey. srcCanonical reports whether every such
+// edge of the SOURCE uses the shortest (reference implementation) form, i.e. the deviation is the re-encoder's.
+var c04Hasher = boc.NewHasher() // cells compared here are never modified afterwards
+
+func c04ExplainedByLabels(src, re *boc.Cell, maxKey int) (explained, srcCanonical bool) {
 	if src.CellType() != re.CellType() {
-		return false
+		return false, false
+	}
+	if h1, err1 := c04Hasher.HashString(src); err1 == nil {
+		if h2, err2 := c04Hasher.HashString(re); err2 == nil && h1 == h2 {
+			return true, true
+		}
 	}
 	sr, rr := src.Refs(), re.Refs()
 	if len(sr) != len(rr) {
-		return false
+		return false, false
 	}
+	srcCanonical = true
 	sb, rb := vhCellBits(src), vhCellBits(re)
 	if sb != rb {
 		if src.CellType() != boc.OrdinaryCell {
-			return false
+			return false, false
 		}
-		ok := false
-		for m := 0; m <= maxKey && !ok; m++ {
+		ok, canon := false, false
+		for m := 0; m <= maxKey; m++ {
 			k1, l1, rest1, e1 := vhParseLabel(sb, m)
 			k2, l2, rest2, e2 := vhParseLabel(rb, m)
 			if e1 == nil && e2 == nil && k1 != k2 && l1 == l2 && rest1 == rest2 {
 				// a leaf (label completes the key) or a fork (exactly two refs, no payload)
-				ok = len(l1) == m || (len(sr) == 2 && rest1 == "")
+				if len(l1) == m || (len(sr) == 2 && rest1 == "") {
+					ok = true
+					if k1 == vhCanonicalKind(l1, m) {
+						canon = true // conservative: canonical under some admissible key length
+					}
+				}
 			}
 		}
 		if !ok {
-			return false
+			return false, false
 		}
+		srcCanonical = canon
 	}
 	for i := range sr {
-		if !c04ExplainedByLabels(sr[i], rr[i], maxKey) {
-			return false
+		e, c := c04ExplainedByLabels(sr[i], rr[i], maxKey)
+		if !e {
+			return false, false
+		}
+		srcCanonical = srcCanonical && c
+	}
+	return true, srcCanonical
+}
+
+// c04FirstDiff returns the bits of the first pair of cells (pre-order) whose own bits / ref counts differ.
+func c04FirstDiff(a, b *boc.Cell, path string) string {
+	ab, bb := vhCellBits(a), vhCellBits(b)
+	ar, br := a.Refs(), b.Refs()
+	if ab != bb || len(ar) != len(br) || a.CellType() != b.CellType() {
+		return fmt.Sprintf("first differing cell at %s: source %s (%d bits, %d refs), re-encoded %s (%d bits, %d refs)", path, vhBin2Hex(ab), len(ab), len(ar), vhBin2Hex(bb), len(bb), len(br))
+	}
+	for i := range ar {
+		if d := c04FirstDiff(ar[i], br[i], fmt.Sprintf("%s.%d", path, i)); d != "" {
+			return d
 		}
 	}
-	return true
+	return ""
 }
 
 var c04TxType = reflect.TypeOf(Transaction{})
@@ -811,7 +852,18 @@ func c04ContainsTx(t reflect.Type, seen map[reflect.Type]bool) bool {
 
 // c04ShadowType maps a type to one in which Transaction is replaced by a struct with the same exported fields and
 // tags but without the unexported cache fields (on which the reflective encoder of the unchanged library panics).
+var c04ShadowMemo = map[reflect.Type]reflect.Type{}
+
 func c04ShadowType(t reflect.Type) reflect.Type {
+	if st, ok := c04ShadowMemo[t]; ok {
+		return st
+	}
+	st := c04ShadowTypeUncached(t)
+	c04ShadowMemo[t] = st
+	return st
+}
+
+func c04ShadowTypeUncached(t reflect.Type) reflect.Type {
 	if t != c04TxType && !c04ContainsTx(t, map[reflect.Type]bool{}) {
 		return t
 	}
@@ -892,16 +944,28 @@ func (r *c04Real) check(kind string, v any, src *boc.Cell, srcHash string, where
 		r.counts[kind+".equal"]++
 		return
 	}
-	if src != nil && c04ExplainedByLabels(src, c, r.maxKey) {
-		r.counts[kind+".differs_label_form_only"]++
-		return
+	if src != nil {
+		if explained, srcCanonical := c04ExplainedByLabels(src, c, r.maxKey); explained && !srcCanonical {
+			// allow-list: the chain data itself used a valid but not shortest label form
+			r.counts[kind+".differs_source_label_form_not_canonical(allowed)"]++
+			return
+		} else if explained {
+			// same mapping, but the library emitted a longer label form than the (canonical) chain data
+			r.counts[kind+".differs_library_label_form_not_canonical"]++
+			d := ""
+			if r.fails.wants("rc_dictionary_labels_not_canonical") {
+				d = c04FirstDiff(src, c, "root")
+			}
+			r.fails.add("rc_dictionary_labels_not_canonical", "%s %s: source hash %s, re-encoded hash %s; the trees differ only in the hml_* form of dictionary labels and the source uses the shortest form\n      %s", kind, where, srcHash, h, d)
+			return
+		}
 	}
 	r.counts[kind+".differs_unexplained"]++
-	srcTree := "<source cell not available>"
-	if src != nil {
-		srcTree = vhTree(src)
+	d := "<source cell not available>"
+	if src != nil && r.fails.wants("rc_reencoded_hash_differs/"+kind) {
+		d = c04FirstDiff(src, c, "root")
 	}
-	r.fails.add("rc_reencoded_hash_differs/"+kind, "%s %s: source hash %s, re-encoded hash %s\n      source:     %s\n      re-encoded: %s", kind, where, srcHash, h, srcTree, vhTree(c))
+	r.fails.add("rc_reencoded_hash_differs/"+kind, "%s %s: source hash %s, re-encoded hash %s\n      %s", kind, where, srcHash, h, d)
 }
 
 func c04HasExotic(c *boc.Cell, depth int) bool {
@@ -938,7 +1002,16 @@ type c04RawShardState struct {
 
 func TestVerifStandin_C04_RealData(t *testing.T) {
 	r := &c04Real{t: t, stat: newVhStat("c04_realdata"), counts: map[string]int{}, maxKey: 256,
-		fails: newVhFailures("rc_marshal_panics_on_unexported_struct_field")}
+		fails: newVhFailures("rc_marshal_panics_on_unexported_struct_field", "rc_dictionary_labels_not_canonical")}
+	defer debug.SetGCPercent(debug.SetGCPercent(400))
+	// quick tier: all transactions, messages and accounts, but only ~100 evenly spaced InMsg / OutMsg records per block
+	// (each of them embeds a transaction that is checked anyway); thorough: every record
+	stride := func(n int) int {
+		if vhThorough() || n <= 100 {
+			return 1
+		}
+		return (n + 99) / 100
+	}
 	files, _ := filepath.Glob("testdata/block-*/block.bin")
 	sort.Strings(files)
 	if len(files) == 0 {
@@ -1015,6 +1088,9 @@ func TestVerifStandin_C04_RealData(t *testing.T) {
 			r.fails.add("rc_descr_decode", "%s: InMsgDescr: %v", file, err)
 		}
 		for i, raw := range inDescr.Values() {
+			if i%stride(len(inDescr.Values())) != 0 {
+				continue
+			}
 			src := boc.Cell(raw)
 			if c04HasExotic(&src, 0) {
 				r.counts["in_msg.skipped_pruned"]++
@@ -1037,6 +1113,9 @@ func TestVerifStandin_C04_RealData(t *testing.T) {
 			r.fails.add("rc_descr_decode", "%s: OutMsgDescr: %v", file, err)
 		}
 		for i, raw := range outDescr.Values() {
+			if i%stride(len(outDescr.Values())) != 0 {
+				continue
+			}
 			src := boc.Cell(raw)
 			if c04HasExotic(&src, 0) {
 				r.counts["out_msg.skipped_pruned"]++
